@@ -628,7 +628,9 @@ def check_c05(A: Analysis, col: Collector):
     for name in ("expand_workflow", "expand_workflow_async"):
         f = sub.find_method(name)
         cfgf = A.cfg(f)
-        cons = {n.id for n in cfgf.nodes if any(isinstance(c.func, ast.Attribute) and c.func.attr == "construct" for c in _calls(n))}
+        # a call of a private method of the submitter that itself constructs the workflow counts as the construction
+        constructing = {m.name for m in sub.methods.values() if m.name.startswith("_") and any(isinstance(c.func, ast.Attribute) and c.func.attr == "construct" for c in A.calls(m))}
+        cons = {n.id for n in cfgf.nodes if any(isinstance(c.func, ast.Attribute) and (c.func.attr == "construct" or (c.func.attr in constructing and dotted(c.func.value) == "self")) for c in _calls(n))}
         gets = [n for n in cfgf.nodes if any(isinstance(c.func, ast.Attribute) and c.func.attr == "get_runnable_tasks" for c in _calls(n))]
         if cons and gets and all(cfgf.dominated_by(g, lambda m: m.id in cons) for g in gets):
             col.ok("C05.expand", f"{name}: <task>.construct() dominates every get_runnable_tasks()", A.loc(f.node))
